@@ -241,12 +241,17 @@ Proof.
   { intros k r s1 R. unfold co_destroy in R.
     destruct (gcon s && DESTROY_UNREGISTERS_FIRST).
     - destruct (gc_unregister k s) as [s0|] eqn:U; [|inversion R; subst; split; [constructor|reflexivity]].
-      pose proof (gc_unregister_same _ _ _ U) as S0.
+      pose proof (gc_unregister_Inv _ _ _ I U) as I0.
+      assert (S0 : stof s0 j = stof s j).
+      { unfold gc_unregister in U. destruct (get k (cos s)) as [c|] eqn:G; [|inversion U; reflexivity].
+        destruct (co_reg c); inversion U; subst. unfold stof. simpl. rewrite get_put.
+        destruct (Nat.eqb k j) eqn:E; [|reflexivity]. apply Nat.eqb_eq in E. subst j. rewrite G. reflexivity. }
       destruct (mco_destroy k s0) as [e s2] eqn:Dd. inversion R; subst.
-      rewrite <- (same_ctl_stof _ _ S0 j).
-      eapply mco_destroy_tr; [eapply same_ctl_Inv; eauto|exact Dd].
-    - destruct (mco_destroy k s) as [e s2] eqn:Dd. inversion R; subst.
-      eapply mco_destroy_tr; eauto. }
+      rewrite <- S0. eapply mco_destroy_tr; eauto.
+    - destruct (mco_destroy k s) as [e s2] eqn:Dd.
+      pose proof (mco_destroy_tr _ _ _ _ I Dd j) as X.
+      destruct (is_success e && gcon s); [|inversion R; subst; exact X].
+      destruct (get k (cos s)) as [c|]; [destruct (co_reg c)|]; inversion R; subst; exact X. }
   unfold step. destruct (halted s); [apply K, trk_same|].
   destruct o.
   - destruct (get k (cos s)) eqn:G; simpl; [apply K, trk_same|].
